@@ -710,6 +710,18 @@ func trSandbox(args []string) error {
 						}
 					}
 				}
+				// every mention of a function or variable of fmt, os, log (a host stream handed to a helper counts),
+				// and calls of Go's own print builtins
+				if sel, ok := m.(*ast.SelectorExpr); ok {
+					if id, ok := sel.X.(*ast.Ident); ok && (id.Name == "fmt" || id.Name == "os" || id.Name == "log") {
+						atoms = append(atoms, id.Name+"."+sel.Sel.Name)
+					}
+				}
+				if c, ok := m.(*ast.CallExpr); ok {
+					if id, ok := c.Fun.(*ast.Ident); ok && (id.Name == "print" || id.Name == "println") {
+						atoms = append(atoms, "go:"+id.Name)
+					}
+				}
 				if c, ok := m.(*ast.CallExpr); ok {
 					if s := trsbPrint(c.Fun); strings.HasPrefix(s, "fmt.Fp") && len(c.Args) > 0 {
 						atoms = append(atoms, s)
